@@ -448,6 +448,14 @@ def c16(tier, seed):
                   "of candidates of a stratified subset, token line deviating from a valid line in <= Dev fields, attribute value or attribute byte length")
 
 
+def replay(rp):
+    """The pure families are enumerated exhaustively and deterministically: replaying a recorded case is re-running the
+    property's quick check, which contains it, against the current tree (evidence goes to a scratch directory)."""
+    import tempfile
+    v.EVID = tempfile.mkdtemp(prefix="replay-evidence-")
+    return PLANS[rp["property"]]("quick", int(os.environ.get("VERIF_SEED", "1")))
+
+
 PLANS = {"C16": c16, "C17": c17, "C19": c19}
 MANIFEST = {
     "C16": ("model_checking", "5.C16", "CandidateCodec.tla / AttrCodec.tla enumerated exhaustively by TLC (abstract candidates, equality laws checked on the "
